@@ -28,6 +28,12 @@ class C05(PropBase):
                 for cfg in cfgs + ['']:
                     out.append(Case('pathroundtrip', [['s', s], cfg, cfg], 'roundtrip', {'sid': s, 'cfg': cfg}))
                     out.append(Case('path', [['s', s], cfg, rng.choice(['pos', 'kw'])], 'path', {'sid': s, 'cfg': cfg}))
+                if rng.random() < 0.5:
+                    from props.c14 import C14
+                    for u in C14().forced_variants(v, s)[1:]:
+                        for cfg in cfgs:
+                            out.append(Case('path', [['s', u], cfg, 'pos'], 'path', {'sid': u, 'cfg': cfg}))
+                            out.append(Case('path', [['s', s], cfg, 'pos'], 'path', {'sid': s, 'cfg': cfg}))
         for _ in range(n):
             s = gen.junk_string(rng).replace('?', '')
             out.append(Case('path', [['s', s], rng.choice(cfgs + ['']), 'pos'], 'untyped', {'sid': s}))
